@@ -68,6 +68,7 @@ type runState struct {
 	persistent bool
 	kind       int
 	pageSize   int
+	budget     int64 // storage calls after which every call fails (0: callBudget)
 }
 
 type runStateKey struct{}
@@ -97,7 +98,7 @@ const callBudget = 4000
 func (d *faultDeps) hit(ctx context.Context) error {
 	st := d.state(ctx)
 	n := atomic.AddInt64(st.calls, 1)
-	if n > callBudget {
+	if n > callBudget || (st.budget > 0 && n > st.budget) {
 		return errFault
 	}
 	if st.failAt != 0 && (n == st.failAt || (st.persistent && n > st.failAt)) {
@@ -175,6 +176,7 @@ type engEnv struct {
 	other                *ksql.Persister // one persister serving two networks selected by the context (C06)
 	eng                  *check.Engine   // the engine shared by all checks of this environment
 	hung                 bool            // a check did not return: the stream stops after the current case
+	budget               int64           // storage-call budget of the next runs (0: callBudget)
 	ctxB                 context.Context
 }
 
@@ -563,7 +565,7 @@ func (e *engEnv) runCheck(c *EngCase, det bool) (res string, calls int64) {
 		e.eng = check.NewEngine(deps)
 	}
 	ctx := context.WithValue(e.ctx, runStateKey{}, &runState{calls: &n, failAt: int64(c.FaultAt), persistent: c.FaultPersis,
-		kind: c.FaultKind, pageSize: c.PageSize})
+		kind: c.FaultKind, pageSize: c.PageSize, budget: e.budget})
 	defer func() {
 		if r := recover(); r != nil {
 			res = fmt.Sprintf("panic:%v", r)
